@@ -94,9 +94,14 @@ def map_update(m: SV, o: SV) -> SV:
 
 
 # ---------------- str ----------------
+LOWER_CONSTS = {"md5", "md5-dos2unix", "blake3", "sha256", "etag", "checksum"}
+
+
 def str_lower(engine, s: SV) -> SV:
     f = ufn("str_lower", z3.StringSort(), z3.StringSort())
     r = SV(f(s.t), TStr)
+    for c in sorted(LOWER_CONSTS):
+        engine.spec_fact(f"lower({c!r})", f(z3.StringVal(c)) == z3.StringVal(c.lower()))
     engine.spec_fact("lower idempotent", f(r.t) == r.t)
     engine.spec_fact("lower keeps length", z3.Length(r.t) == z3.Length(s.t))
     return r
@@ -220,13 +225,55 @@ def comprehension(engine, e, kind, g, it: SV):
         engine.spec_fact("list-comp elements", z3.ForAll(bound, z3.Implies(guard, q.t[bound[0]] == val.t)), defn=True)
         return q
     sty = TSet(val.ty)
-    r = sty.fresh("comp")
+    key = comp_key_of(e.elt, g.target, g.ifs)
+    if key is not None:
+        # interned: the same comprehension text in the code and in a contract is the same spec function
+        f = ufn(f"setcomp_{key}_{_san(it.ty.name)}", it.ty.sort(), sty.sort())
+        r = SV(f(it.t), sty)
+    else:
+        r = sty.fresh("comp")
     cv = canon(val)
     y = z3.Const(f"y!c{engine.fresh_id()}", val.ty.sort())
     engine.spec_fact("set-comp includes images", z3.ForAll(bound, z3.Implies(z3.And(guard, cond), z3.IsMember(cv.t, r.t))), defn=True)
-    engine.spec_fact(
+    if key is None or engine.comp_only_images:
+      engine.spec_fact(
         "set-comp only images",
         z3.ForAll([y], z3.Implies(z3.IsMember(y, r.t), z3.Exists(bound, z3.And(guard, cond, y == cv.t)))),
         defn=True,
-    )
+      )
     return r
+
+
+def comp_key_of(elt, target, ifs):
+    """normalised identity of a comprehension body without free variables (None if it has any)"""
+    import ast
+    import hashlib
+
+    tnames = [n.id for n in ast.walk(target) if isinstance(n, ast.Name)]
+    ren = {n: f"_t{i}" for i, n in enumerate(tnames)}
+    parts = []
+    for node in [elt] + list(ifs):
+        for n in ast.walk(node):
+            if isinstance(n, ast.Name) and n.id not in ren:
+                return None
+        txt = ast.dump(node, annotate_fields=False)
+        for a, b in ren.items():
+            txt = txt.replace(f"Name('{a}'", f"Name('{b}'")
+        parts.append(txt)
+    # position of the names inside the target matters ((_, _, oid) vs (_, oid))
+    shape = ast.dump(target, annotate_fields=False)
+    for a, b in ren.items():
+        shape = shape.replace(f"Name('{a}'", f"Name('{b}'")
+    return hashlib.sha1(("|".join(parts) + "#" + shape).encode()).hexdigest()[:10]
+
+
+def setcomp(src: str, seq: SV, result_elem_ty) -> SV:
+    """the interned spec function of a comprehension written as source text, e.g.
+    setcomp("oid for _, _, oid in X", entries, HashInfo) -- for use in contracts"""
+    import ast
+
+    g = ast.parse("{" + src + "}", mode="eval").body
+    key = comp_key_of(g.elt, g.generators[0].target, g.generators[0].ifs)
+    sty = TSet(result_elem_ty)
+    f = ufn(f"setcomp_{key}_{_san(seq.ty.name)}", seq.ty.sort(), sty.sort())
+    return SV(f(seq.t), sty)
